@@ -1162,7 +1162,14 @@ def oracle_c10(sc, res):
                     quiet_from = r[SEQ]
                     break
             if quiet_from is not None:
+                # (guards / callables of invoked child machines keep running until stop(): they are not "in response")
+                child_names = set()
+                for ch_ in (sc.get("children") or {}).values():
+                    lg_ = ch_.get("logic") or {}
+                    child_names |= set(lg_.get("guards") or {}) | set(lg_.get("actions") or {})
                 for r in res.trace:
+                    if r[K] in ("gcall", "ucall") and (r[4] in child_names or (len(r) > 5 and r[5] in child_names)):
+                        continue
                     if r[SEQ] > quiet_from and r[K] in ("recv", "act", "trans", "gcall", "ucall") and (r[K] in ("gcall", "ucall") or r[4] == root):
                         vios.append(Violation("C10", "activity-after-done", {"engine": sc["engine"], "kind": r[K]},
                                               f"after completion an event was sent (seq {quiet_from}) and {r[K]} {r[4:7]} followed at seq {r[SEQ]}"))
